@@ -431,6 +431,9 @@ func TestVerifC01(t *testing.T) {
 			case 2:
 				p.name, p.fec, p.dup = "fec-recovered-duplicates", 30, 30
 			}
+			if i%5 == 4 { // every combination of MTU: also MTUs (re)configured with data already queued
+				p.name, p.setmtu = p.name+"+mtu-change", 6
+			}
 			return p
 		},
 		nontriv: func(info coreCaseInfo, s *coreSim) bool {
